@@ -13,6 +13,10 @@ var ctypes = []geom.CoordinatesType{geom.DimXY, geom.DimXYZ, geom.DimXYM, geom.D
 
 func measureGen(r *rand.Rand, n int, tier string, emit func(Case)) {
 	for i := 0; i < n; i++ {
+		if r.Intn(12) == 0 {
+			emit(sliverCase(r))
+			continue
+		}
 		l := &lgen{r: r, N: 3 + r.Intn(6)}
 		if r.Intn(4) == 0 {
 			l.N = 9 + r.Intn(8)
@@ -60,6 +64,9 @@ func measureGen(r *rand.Rand, n int, tier string, emit func(Case)) {
 }
 
 func measureOnPanic(c Case) Event {
+	if _, ok := c["kind"]; ok {
+		return Event{"kind": "sliver", "k": 1, "hu": 1, "wkt": "", "fin": false, "cempty": false, "dxu": 0, "dyu": 0, "areafin": false}
+	}
 	return Event{"g": []*flat{}, "area2": 0, "sarea2": 0, "area2t": 0, "ts": 1, "lenn": 0, "cx": 0, "cy": 0, "cempty": false}
 }
 
@@ -72,6 +79,9 @@ func roundInt(v float64) int {
 }
 
 func measureExec(c Case) Event {
+	if _, ok := c["kind"]; ok {
+		return sliverMeasure(c)
+	}
 	ev := measureOnPanic(c)
 	g0 := mustWKT(c.str("wa"))
 	switch c.num("force") {
